@@ -142,10 +142,11 @@ theorem written_exists (F : FloatFmt) (canon : Nat → Prop) (hF : F.Lawful cano
   · have hk := w.keys
     simp only [hs, if_false] at hk
     have hkw := (keys_spec r.keys hk.1 hk.2).1
+    have hkne : r.keys ≠ [] := hk.1
     have : ts ≠ [] := by
       intro e; subst e; simp at hlen
       exact hs (List.length_eq_zero_iff.mp hlen.symm)
-    simp [hs, hkw, hsw, this, samplesText, lineOf]
+    simp [hs, hkne, hkw, hsw, this, samplesText, lineOf]
 
 /-- the eager reader on the written line -/
 theorem parse_written (F : FloatFmt) (canon : Nat → Prop) (hF : F.Lawful canon) (h : Hdr) (r : Rec)
